@@ -38,11 +38,15 @@ dirs = [a for a in sys.argv[1:] if not a.startswith("--")]
 if "--all" in sys.argv:
     dirs = sorted(glob.glob("/verif/seeded/*/"))
 res = {}
+detail = {}
 for d in dirs:
     d = d.rstrip("/")
     prop, st, info = run(d)
     res[os.path.basename(d)] = st
+    detail[os.path.basename(d)] = {"checked_with": prop, "status": st, "reports": [re.sub(r"\s+", " ", l.strip())[:260] for l in (info or "").splitlines()[:3]] if st == "CAUGHT" else []}
     print("%-8s %-6s %s" % (st, prop, os.path.basename(d)))
     if info:
         print("     " + info.replace("\n", "\n     "))
 print(json.dumps(res))
+if "--write" in sys.argv:
+    json.dump(detail, open("/verif/seeded/RESULTS.json", "w"), indent=1, sort_keys=True)
